@@ -206,7 +206,8 @@ def run(ctx: core.Ctx, only=None) -> core.Result:
         case = {k: (tuple(v) if k in ('alpha_lim', 'beta_lim') else v) for k, v in case.items()
                 if k in ('nin', 'alpha_lim', 'beta_lim', 'kpl', 'nout', 'kind', 'domains', 'norms_in', 'norms_out',
                          'nsteps', 'fseed')}
-        run_case(ctx, res, case, lines, post)
+        with core.guarded(res, 'scenario-raised', case):
+            run_case(ctx, res, case, lines, post)
     t = core.try_driver(['itp.snaptol 1'], res, 'Gen.snapTol')
     if t is None:
         return res
